@@ -12,7 +12,7 @@ From Coq Require Import List ZArith NArith Bool String.
 From Flocq Require Import IEEE754.BinarySingleNaN.
 From Verif Require Import common.Sexp common.Int64 gen.GenFuncTable
   c03.JV c03.FloatText c03.Core c03.Ops c03.Natives c03.Dispatch c03.Spec c03.Wf c03.TableProofs
-  c03.NoPanic3 c03.DispatchTotal c03.Denote c03.CompareDoc c03.OpsDoc c03.NativesDoc c03.NativesDoc2 c03.RepIndep c03.Run.
+  c03.NoPanic3 c03.DispatchTotal c03.Denote c03.CompareDoc c03.OpsDoc c03.NativesDoc c03.NativesDoc2 c03.NativesDoc3 c03.ContainsDoc c03.IndicesDoc c03.StringsDoc c03.RepIndep c03.Run.
 Import ListNotations.
 Open Scope Z_scope.
 
@@ -104,6 +104,45 @@ Theorem C03_natives_meet_doc2 : forall pf, (forall z, big_to_float pf z = Z2F z)
   /\ agrees pf (f_add pf v) (s_add_all (denote pf v)).
 Proof. exact (fun pf H v W => conj (f_min_doc pf H v W) (conj (f_max_doc pf H v W) (f_add_doc pf H v W))). Qed.
 Print Assumptions C03_natives_meet_doc2.
+
+(* third batch.  [ragrees]: where Spec.v has no entry (None: outside the documented domain, e.g. invalid
+   UTF-8 for ascii_*case and split by "", non-code-points for implode) nothing is claimed. *)
+Theorem C03_natives_meet_doc3 : forall pf, (forall z, big_to_float pf z = Z2F z) ->
+  forall v x, wf v = true -> wf x = true ->
+     agrees pf (f_endswith v x) (s_str2 (fun s t => MBool (s_endswith s t)) (denote pf v) (denote pf x))
+  /\ agrees pf (f_rtrimstr v x) (s_str2 (fun s t => MStr (s_rtrimstr s t)) (denote pf v) (denote pf x))
+  /\ agrees pf (f_trimstr v x) (s_str2 (fun s t => MStr (s_rtrimstr (s_ltrimstr s t) t)) (denote pf v) (denote pf x))
+  /\ agrees pf (f_tonumber pf v) (match s_tonumber pf (denote pf v) with Some r => r | None => SErr end)
+  /\ (forall is_min, agrees pf (f_minmax_by pf is_min v x) (s_minmax_by is_min (denote pf v) (denote pf x)))
+  /\ agrees pf (f_transpose v) (s_transpose (denote pf v))
+  /\ cagrees (contains pf v x) (s_contains (denote pf v) (denote pf x))
+  /\ agrees pf (f_indices pf v x) (s_indices (denote pf v) (denote pf x))
+  /\ agrees pf (f_index pf v x) (s_index (denote pf v) (denote pf x))
+  /\ agrees pf (f_rindex pf v x) (s_rindex (denote pf v) (denote pf x))
+  /\ ragrees pf (f_ascii_downcase v) (s_ascii false (denote pf v))
+  /\ ragrees pf (f_ascii_upcase v) (s_ascii true (denote pf v))
+  /\ ragrees pf (f_split v x) (match denote pf v, denote pf x with
+                               | MStr s, MStr t => option_map (fun ps => SVal (MArr (map MStr ps))) (s_split s t)
+                               | _, _ => Some SErr end)
+  /\ ragrees pf (f_implode pf v) (s_implode (denote pf v))
+  (* division on every pair of operands, string / string included *)
+  /\ agrees pf (op_div pf v x) (s_div (denote pf v) (denote pf x)).
+Proof.
+  exact (fun pf H v x WV WX =>
+    conj (f_endswith_doc pf v x WV WX) (conj (f_rtrimstr_doc pf v x WV WX) (conj (f_trimstr_doc pf v x WV WX)
+    (conj (f_tonumber_doc pf v WV) (conj (fun m => f_minmax_by_doc pf H m v x WV WX) (conj (f_transpose_doc pf v WV)
+    (conj (contains_doc pf H v x WV WX) (conj (f_indices_doc pf H v x WV WX) (conj (f_index_doc pf H v x WV WX)
+    (conj (f_rindex_doc pf H v x WV WX) (conj (f_ascii_downcase_doc pf v WV) (conj (f_ascii_upcase_doc pf H v WV)
+    (conj (f_split_doc pf v x WV WX) (conj (f_implode_doc pf v WV) (op_div_doc_all pf H v x WV WX))))))))))))))).
+Qed.
+Print Assumptions C03_natives_meet_doc3.
+(* error / halt_error: the dispatch *)
+Theorem C03_error_dispatch : forall pf v a,
+  f_error v [] = Err (EUser v) /\ f_error v [a] = Err (EUser a)
+  /\ f_halt_error pf v [] = Err (EHalt v 5)
+  /\ (wf a = true -> f_halt_error pf v [a] = match mv_int (denote pf a) with Some c => Err (EHalt v c) | None => Err EFunc0Type end).
+Proof. exact (fun pf v a => conj (proj1 (f_error_doc v a)) (conj (proj2 (f_error_doc v a)) (f_halt_error_doc pf v a))). Qed.
+Print Assumptions C03_error_dispatch.
 
 (* 5. rep_independent.  The conversions every numeric argument goes through (toFloat, toInt,
    toIntCeil) and Compare depend on the denotation only -- for integers of ANY size in int / *big.Int /
